@@ -363,7 +363,8 @@ class Taint:
         if isinstance(e.op, ast.Mult):
             # noise scaled by a public number is noise (of that many times the scale)
             for a_, b_, ae in ((l, r, e.left), (r, l, e.right)):
-                if b_.is_noise and not a_.anyt() and isinstance(b_.env, dict) and b_.env.get('scale') is not None:
+                if b_.is_noise and not a_.anyt() and isinstance(b_.env, dict) and b_.env.get('scale') is not None and \
+                        not (isinstance(ae, ast.Constant) and ae.value == 0):
                     out = CLEAN()
                     out.is_noise = True
                     out.env = dict(b_.env)
